@@ -313,6 +313,56 @@ uint64_t vx_worker_exec_count(void)
     return g_nexec_worker;
 }
 
+/* ---------------------------------------------------------------- ThreadSanitizer as an oracle */
+#if defined(__SANITIZE_THREAD__)
+#define VX_TSAN 1
+#elif defined(__has_feature)
+#if __has_feature(thread_sanitizer)
+#define VX_TSAN 1
+#endif
+#endif
+#ifdef VX_TSAN
+static volatile int g_tsan_reports;
+/* called by the ThreadSanitizer runtime for every report it prints */
+void __tsan_on_report(void *rep);
+void __tsan_on_report(void *rep)
+{
+    (void)rep;
+    g_tsan_reports++;
+}
+
+static void tsan_check(int before)
+{
+    if (g_tsan_reports == before) {
+        return;
+    }
+    char buf[8192];
+    char what[200] = "data race";
+    buf[0] = 0;
+    fflush(stderr);
+    FILE *fp = fopen(g_errpath, "r");
+    if (fp) {
+        fseek(fp, 0, SEEK_END);
+        long sz = ftell(fp);
+        long off = sz > (long)sizeof buf - 1 ? sz - ((long)sizeof buf - 1) : 0;
+        fseek(fp, off, SEEK_SET);
+        size_t r = fread(buf, 1, sizeof buf - 1, fp);
+        buf[r] = 0;
+        fclose(fp);
+        const char *p = strstr(buf, "SUMMARY: ThreadSanitizer: ");
+        if (p) {
+            p += strlen("SUMMARY: ThreadSanitizer: ");
+            /* "data race /path/file.c:123:5 in function" -> keep kind and function */
+            const char *in = strstr(p, " in ");
+            size_t kl = strcspn(p, "/\n");
+            size_t fl = in ? strcspn(in + 4, " \n") : 0;
+            snprintf(what, sizeof what, "%.*sin %.*s", (int)(kl > 60 ? 60 : kl), p, (int)(fl > 80 ? 80 : fl), in ? in + 4 : "?");
+        }
+    }
+    vx_violation("tsan:thread-sanitizer-report", "ThreadSanitizer reported %d problem(s) during this execution: %s", g_tsan_reports - before, what);
+}
+#endif
+
 /* ---------------------------------------------------------------- choices */
 
 static int choose(int n, const char *label, int cost)
@@ -470,7 +520,13 @@ static void run_frame(struct item *f, bool trace)
     if (g_w >= 0) {
         S->w[g_w].run_start_ns = now_ns();
     }
+#ifdef VX_TSAN
+    const int tsan_before = g_tsan_reports;
+#endif
     H->run_one();
+#ifdef VX_TSAN
+    tsan_check(tsan_before);
+#endif
     if (g_pos < f->len) {
         fatal("nondeterministic replay: execution ended after %d points, prefix has %d",
               g_pos, f->len);
